@@ -40,14 +40,16 @@ def relabel_nodes(
     types_this_way = defaultdict(lambda: [])
     types_this_way[type(i)] = [i]
     if is_terminal(type(i), non_terminals) and not is_list:
+        # A field-less production is a node of its own; a built-in value is not.
+        leaf_nodes = int(g.expansion_depthing) if is_builtin(type(i)) else 1
         if not is_builtin(type(i)):
             i.gengy_labeled = True
             i.gengy_distance_to_term = int(g.expansion_depthing)
-            i.gengy_nodes = int(g.expansion_depthing)
+            i.gengy_nodes = leaf_nodes
             i.gengy_weighted_nodes = int(g.expansion_depthing)
             i.gengy_types_this_way = {type(i): [i]}
         return (
-            int(g.expansion_depthing),
+            leaf_nodes,
             int(g.expansion_depthing),
             {type(i): [i]},
             int(g.expansion_depthing),
